@@ -13,20 +13,21 @@ import argparse, concurrent.futures as cf, fnmatch, glob, hashlib, json, os, re,
 
 ROOT = os.path.dirname(os.path.abspath(__file__))
 REPO = os.environ.get("VERIF_REPO", "/repo")
-BUILD = os.path.join(ROOT, "build")
-EVID = os.path.join(ROOT, "evidence")
-REPLAYS = os.path.join(ROOT, "replays")
+# scratch runs against a modified copy of the tree (calibration mutants) redirect everything that is written
+BUILD = os.environ.get("VERIF_BUILD", os.path.join(ROOT, "build"))
+EVID = os.environ.get("VERIF_EVID", os.path.join(ROOT, "evidence"))
+REPLAYS = os.environ.get("VERIF_REPLAYS", os.path.join(ROOT, "replays"))
 NCPU = os.cpu_count() or 4
 
 sys.path.insert(0, ROOT)
 from checks.registry import CHECKS  # noqa: E402
 
-COMMON = ["-std=c++17", "-g", "-DGMLC_TDC_CONCURRENCY_VERIF", "-include", os.path.join(ROOT, "framework/vshim.hpp"),
+COMMON = ["-std=c++17", "-g1", "-DGMLC_TDC_CONCURRENCY_VERIF", "-include", os.path.join(ROOT, "framework/vshim.hpp"),
           "-I" + REPO, "-I" + os.path.join(ROOT, "framework"), "-I" + os.path.join(ROOT, "checks"), "-pthread",
           "-Wno-deprecated-declarations"]
 VARIANTS = {
-    "plain": ["g++", "-O2"],
-    "asan": ["g++", "-O1", "-fsanitize=address,undefined", "-fno-sanitize-recover=all", "-fno-omit-frame-pointer"],
+    "plain": ["g++", "-O1"],
+    "asan": ["g++", "-O0", "-fsanitize=address,undefined", "-fno-sanitize-recover=all", "-fno-omit-frame-pointer"],
     "tsan": ["g++", "-O1", "-fsanitize=thread", "-fno-omit-frame-pointer"],
 }
 
